@@ -228,7 +228,6 @@ func newScript() *Script {
 	s.declRaw("blob_of", "(declare-fun blob_of ((Array Int Int)) Blob)")
 	s.declRaw("blob_zero", "(declare-const blob_zero Blob)")
 	s.blobAxioms = append(s.blobAxioms,
-		"(forall ((b Blob) (i Int)) (! (and (<= 0 (blob_at b i)) (<= (blob_at b i) 255)) :pattern ((blob_at b i))))",
 		"(forall ((i Int)) (! (= (blob_at blob_zero i) 0) :pattern ((blob_at blob_zero i))))",
 		"(forall ((b Blob) (i Int) (v Int) (j Int)) (! (= (blob_at (blob_set b i v) j) (ite (= i j) v (blob_at b j))) :pattern ((blob_at (blob_set b i v) j))))",
 		"(forall ((b Blob) (i Int)) (! (= (select (blob_arr b) i) (blob_at b i)) :pattern ((select (blob_arr b) i))))",
